@@ -212,6 +212,63 @@ impl Store {
                     Some(_) => wrongtype(),
                 }
             }
+            // a tiny fake script vocabulary: the script text is "<VERB>[=<value>][:<anything>]" with VERB one of
+            //   DELALL (delete every KEYS[i], reply the number deleted), GETALL (reply the array of their values),
+            //   SETALL (write ARGV[1] - or <value> when there is no ARGV - to every KEYS[i], reply OK)
+            b"EVAL" => {
+                if argc < 3 {
+                    return wrong_args(&name);
+                }
+                let n = match parse_i64(&cmd[2]) {
+                    Some(n) if n >= 0 && (n as usize) <= argc - 3 => n as usize,
+                    _ => return err("ERR Number of keys can't be greater than number of args"),
+                };
+                let keys: Vec<Vec<u8>> = cmd[3..3 + n].to_vec();
+                let argv: Vec<Vec<u8>> = cmd[3 + n..].to_vec();
+                let text = cmd[1].clone();
+                let head: Vec<u8> = text.split(|c| *c == b':').next().unwrap_or(&[]).to_vec();
+                let mut it = head.splitn(2, |c| *c == b'=');
+                let verb = upper(it.next().unwrap_or(&[]));
+                let inline = it.next().map(|v| v.to_vec());
+                match verb.as_slice() {
+                    b"DELALL" => {
+                        let mut cnt = 0;
+                        for k in keys.iter() {
+                            if self.map.remove(k).is_some() {
+                                cnt += 1;
+                            }
+                        }
+                        int(cnt)
+                    }
+                    b"GETALL" => Resp::Arr(Array::Arr(
+                        keys.iter()
+                            .map(|k| match self.map.get(k) {
+                                Some(Entry {
+                                    val: Val::Str(s), ..
+                                }) => bulk(s),
+                                _ => Resp::Bulk(BulkStr::Nil),
+                            })
+                            .collect(),
+                    )),
+                    b"SETALL" => {
+                        let v = match argv.first().cloned().or(inline) {
+                            Some(v) => v,
+                            None => return err("ERR SETALL needs a value"),
+                        };
+                        for k in keys.iter() {
+                            self.map.insert(
+                                k.clone(),
+                                Entry {
+                                    val: Val::Str(v.clone()),
+                                    ttl: None,
+                                },
+                            );
+                        }
+                        ok()
+                    }
+                    _ => err("ERR unknown script"),
+                }
+            }
             b"DEL" | b"UNLINK" => {
                 if argc < 2 {
                     return wrong_args(&name);
